@@ -156,12 +156,15 @@ def wait_obs(oid, label, wait_state, inp, spec, tz, delay_ms, redeliver=False):
             "spec": spec, "status": notes[-1] if notes else "", "tz": tz, "delay": delay_ms}
 
 
-def task_obs(oid, label, timeout_s, reply_ms, catch, tz, delay_ms):
+def task_obs(oid, label, timeout_s, reply_ms, catch, tz, delay_ms, exect=0):
+    """exect: a machine-level TimeoutSeconds as well (0: none) -- the execution starts at instant 0"""
     T, P, SM = S.T, S.P, S.SM
     st = T("f", TimeoutSeconds=timeout_s, Next="B")
     if catch:
         st["Catch"] = [{"ErrorEquals": ["States.Timeout"], "Next": "R"}]
     asl = SM("A", A=P(Next="K"), K=st, B=P(End=True), R=P(End=True, Result="caught"))
+    if exect:
+        asl = dict(asl, TimeoutSeconds=exect)
     oracle = {"f": [{"silent": True}]} if reply_ms < 0 else {"f": [{"ok": 1, "delay": reply_ms}]}
     scn = S.scn("c08-task", asl, oracle=oracle)
     ev = Drive(scn, tz).run(delay_state="K", delay_ms=delay_ms)
@@ -179,7 +182,8 @@ def task_obs(oid, label, timeout_s, reply_ms, catch, tz, delay_ms):
     if outcome == "FAILED" and err != "States.Timeout":
         outcome = "FAILED:" + str(err)
     return {"id": oid, "kind": "task", "label": label, "entered": entered, "timeout": timeout_s, "reply": reply_at,
-            "outcome": outcome, "at": at, "expect": expect, "tz": tz, "delay": delay_ms}
+            "outcome": outcome, "at": at, "expect": expect, "tz": tz, "delay": delay_ms, "exect": exect,
+            "handled": (entered + delay_ms) if entered >= 0 else -1}
 
 
 def exect_obs(oid, label, asl, oracle, timeout_s, natural, tz):
@@ -247,6 +251,12 @@ def run(tier_name=None, replay=None):
                 for catch in (False, True):
                     for delay in (0, 1000):
                         obs.append(task_obs(oid(), "task", timeout_s, reply, catch, tz, delay))
+    # 3b. a task timeout under a machine-level timeout, the Task's event handled early, between and after the two deadlines
+    for tz in tzs[:1] if not thorough else tzs:
+        for timeout_s, exect in ((2, 5), (5, 2), (3, 3)):
+            for catch in (False, True):
+                for delay in (0, 1000, 2500, 4000, 5000, 6000, 9000):
+                    obs.append(task_obs(oid(), "task-under-exec-timeout", timeout_s, -1, catch, tz, delay, exect=exect))
     # 4. execution timeout: no Retry/Catch may intercept it
     T, P, SM, Par, Wt = S.T, S.P, S.SM, S.Par, S.Wt
     both = dict(Retry=[{"ErrorEquals": ["States.ALL"], "IntervalSeconds": 1, "MaxAttempts": 5}],
